@@ -67,6 +67,10 @@ def collect(ctx):
             d["stages"][r[2]] = r[3]
         elif k == "NAMES":
             d["names"] = r[2:]
+        elif k == "SIGTPARAMS":
+            d["sigtparams"] = set(r[2].split()) if len(r) > 2 else set()
+        elif k == "CALLSIG":
+            d["callsig"] = [x.split(">") for x in r[2:]]
         elif k == "UNSPEC":
             d["unspec"] = [x.split(">") for x in r[2:]]
         elif k in ("PANIC", "REJECT"):
@@ -107,6 +111,7 @@ def run(ctx):
     model = run_model(ctx, [f"{k}\t{d['core']}" for k, d in main.items() if "core" in d])
     model_rec = run_model(ctx, [f"{k}\t{d['core']}" for k, d in rec.items() if "core" in d], fuel=40)
     closed = run_model(ctx, [f"{k}|{st}\t{sx}" for k, d in main.items() for st, sx in d["stages"].items() if st in ("mono", "lift", "anf")])
+    defs = run_model(ctx, [f"D!{k}\t{d['mono']}" for k, d in main.items() if "mono" in d])
     # Sem on the real Core and Mono dumps (own driver mode: call-site names of methods of generic impls
     # are mapped to their one Core definition first)
     sem_raw = run_model(ctx, [f"S!{k}|{st}\t{sx}" for k, d in main.items() for st, sx in d["stages"].items() if st in ("core", "mono")])
@@ -165,6 +170,34 @@ def run(ctx):
         if dups:
             ctx.report({"oracle": "names", "kind": "duplicate-instance-name"}, "two functions of the Mono program share a name",
                        {"id": k, "src": src, "duplicates": dups})
+        # ---- oracle: a call names an instance of exactly its own type (no two instantiations share an instance)
+        if d.get("callsig"):
+            ctx.report({"oracle": "instances", "kind": "call-annotation-differs-from-instance-signature"},
+                       "a call in the Mono program is annotated with a function type that is not the signature of the Mono function it names "
+                       "(call sites at different types share one instance, or an instance was emitted without binding a type parameter)",
+                       {"id": k, "src": src, "calls(caller>callee)": d["callsig"][:6]})
+        # ---- oracle: the type instances mono registered are closed
+        dr = defs.get(f"D!{k}")
+        if dr is None or dr[0] not in ("closed", "open"):
+            ctx.broken_ties.append(("closed driver (definitions)", f"{k}: {dr}"))
+        elif dr[0] == "open":
+            kinds = set()
+            for item in dr[1].split(" ;; "):
+                kinds.update(item.rsplit(":", 1)[-1].split(","))
+            norm = set()
+            for kk in kinds:
+                m = re.match(r"param-in-type-definition\((.*)\)", kk)
+                if m:
+                    # a parameter that occurs in no function signature is a phantom one (known finding `param`);
+                    # one that does should have been bound by the call that requested the instance
+                    names = set(m.group(1).split("+"))
+                    norm.add("param" if not (names & d.get("sigtparams", set())) else "param-in-type-definition")
+                else:
+                    norm.add(kk)
+            for kk in sorted(norm):
+                ctx.report({"oracle": "closed", "stage": "mono", "residue": kk},
+                           f"a monomorphic type definition registered by mono still contains a residue ({kk})",
+                           {"id": k, "src": src, "definitions": dr[1][:400]})
         # ---- oracle: every needed instance exists
         unspec = d.get("unspec", [])
         for pos in sorted({u[2] for u in unspec if len(u) > 2}):
